@@ -1,9 +1,9 @@
 def register(PROPS, HARNESS_PKGS):
-    allb = '{"empty", "json_small", "json_nomodel", "nonjson", "json_1m_minus", "json_1m", "json_1m_plus", "json_3m"}'
+    allb = '{"empty", "json_small", "json_nomodel", "nonjson", "json_1m_minus", "json_1m", "json_1m_plus", "json_3m", "json_9m"}'
     part = {
         "name": "forward",
         "mc": [{"module": "Forward", "cfg": "Forward_mc.cfg"}],
-        "quick": {"gen": [{"module": "Forward", "cfg": "Forward_gen.cfg", "params": {"BodyClasses": '{"empty", "json_small", "json_nomodel", "nonjson", "json_1m", "json_1m_plus"}'}}],
+        "quick": {"gen": [{"module": "Forward", "cfg": "Forward_gen.cfg", "params": {"BodyClasses": '{"empty", "json_small", "json_nomodel", "nonjson", "json_1m", "json_1m_plus", "json_9m"}'}}],
                   "env": {"VERIF_WAVES": "40"}},
         "thorough": {"gen": [{"module": "Forward", "cfg": "Forward_gen.cfg", "params": {"BodyClasses": allb}}],
                      "env": {"VERIF_WAVES": "200"}},
@@ -14,7 +14,7 @@ def register(PROPS, HARNESS_PKGS):
     }
     PROPS["C01"] = {
         "rule": "TLC enumerates request shapes: body class (empty, JSON with/without model, non-JSON, 1 MiB-1, 1 MiB, "
-                "1 MiB+1, 3 MiB) x declared/chunked length x route (proxy, provider, translated Anthropic) x query; each "
+                "1 MiB+1, 3 MiB, 9 MiB; every body of a MiB or more meets a connection reset on its first attempt) x declared/chunked length x route (proxy, provider, translated Anthropic) x query; each "
                 "is sent through both engines of the assembled server one at a time and then in waves of 48 concurrent "
                 "requests with distinct bodies; the backend's view (method, target, sha256, length, nonce, model) is "
                 "validated against what that client sent. Non-trivial = anything but a small declared-length JSON body "
